@@ -140,7 +140,30 @@ impl<'a> MG<'a> {
         match self.r.below(9) {
             0..=2 => self.int_lit(),
             3 | 4 => {
-                let f = if self.cfg.unique_leaves { format!("{}.5", self.fresh()) } else { format!("{}.{}", self.r.below(10), self.r.below(100)) };
+                // every shape of a float: fraction, bare dot, leading dot, exponent with either marker and
+                // sign, a zero mantissa
+                let f = if self.cfg.unique_leaves {
+                    let n = self.fresh();
+                    match self.r.below(6) {
+                        0 => format!("{n}E0"),
+                        1 => format!("{n}.e0"),
+                        2 => format!("{n}.5E+0"),
+                        _ => format!("{n}.5"),
+                    }
+                } else {
+                    let (a, b, k) = (self.r.below(10), self.r.below(100), self.r.below(4));
+                    match self.r.below(12) {
+                        0 => format!("{a}e{k}"),
+                        1 => format!("{a}E{k}"),
+                        2 => format!("0E{k}"),
+                        3 => format!("0e-{k}"),
+                        4 => format!("{a}.e{k}"),
+                        5 => format!(".{b}"),
+                        6 => format!("{a}."),
+                        7 => format!("{a}.{b}E-{k}"),
+                        _ => format!("{a}.{b}"),
+                    }
+                };
                 self.e(EK::Float(f))
             }
             5 => {
